@@ -971,6 +971,11 @@ class FuncVerifier(object):
             if ls.var is None or ls.var in st.env:
                 raise ContractError('%s: loop %d over a list of objects needs a ghost index name (`var`) that is not a program variable' % (self.c.key, k))
             var = ls.var
+            # the list is modelled read-only: a body that may change a field of the element (an attribute store, or a method whose
+            # contracts list a field of their receiver / that argument under `modifies`) is outside the fragment
+            loop_effects(n, self)
+            if any(b_ == n.target.id for (b_, _f) in self.loop_field_effects):
+                raise OutOfFragment('the loop body may change a field of the list element %r (lists of objects are read-only here)' % n.target.id, n)
         else:
             var = n.target.id if is_range else n.target.elts[0].id
         if ls.var is not None and ls.var != var:
@@ -2951,6 +2956,9 @@ def loop_effects(loop, fv):
                 recv = base_name(node.func.value)
                 actual = [recv] + [base_name(a) for a in node.args]
                 cands = [c for k_, c in fv.lib.contracts.items() if '.' in k_.split('::')[1] and k_.split('::')[1].split('#')[0].split('.')[-1] == meth]
+                pin_ = fv.c.calls.get(fv.call_name(node))
+                if pin_ is not None:
+                    cands = [c for k_, c in fv.lib.contracts.items() if k_.split('::')[1] == pin_] or cands      # the variant this proof uses at that call
                 if meth in ('copy', 'all', 'any', 'astype', 'append', 'items', 'reshape', 'sum', 'dot', 'tolist') and not cands:
                     continue
                 if not cands:
